@@ -11,3 +11,60 @@ Print Assumptions C17_scrape_cut_precedes_split.
 Theorem C17_empty_scrape_answered : ws_scrape_empty_answered = true.
 Proof. reflexivity. Qed.
 Print Assumptions C17_empty_scrape_answered.
+
+(* ---- routing (Model/WsRouting.v, sequential semantics) ---- *)
+From Aquatic Require Import WsSwarm AssocFacts WsFacts WsRoutingFacts.
+Local Open Scope N_scope.
+
+(* what a step hands to clients is, message for message, what the swarm worker addressed to
+   connections that are alive; nothing reaches a connection that is gone *)
+Theorem C17_delivered_iff_addressed_and_alive : forall cs outs o,
+  In (DOut o) (deliver cs outs) <-> In o outs /\ find_conn (wout_dest o) cs <> None.
+Proof.
+  intros cs outs o. split.
+  - intros H. apply deliver_dest_alive in H. destruct H as (o' & E & Hin & Hal). injection E as <-. split; assumption.
+  - intros [Hin Hal]. apply deliver_complete; assumption.
+Qed.
+Print Assumptions C17_delivered_iff_addressed_and_alive.
+
+Theorem C17_step_delivers_to_named_live_connections : forall cfg cut ae k y who a y' msgs,
+  wsys_step cfg cut ae k y who a = Ok (y', msgs) ->
+  forall m, In m msgs -> find_conn (dest m) (y_conns y) <> None \/ find_conn (dest m) (y_conns y') <> None.
+Proof. exact step_delivers_to_named_live_connections. Qed.
+Print Assumptions C17_step_delivers_to_named_live_connections.
+
+(* a second peer id for a torrent the connection has not stopped: the error, and the connection
+   is gone (the running tracker loses the error message itself: recorded finding) *)
+Theorem C17_second_peer_id_refused : forall cfg cut ae k y who c rq pid',
+  find_conn who (y_conns y) = Some c ->
+  aget N.eqb (q_hash rq) (sc_announced c) = Some pid' -> pid' <> q_pid rq ->
+  forall y' msgs, wsys_step cfg cut ae k y who (CAnnounce rq) = Ok (y', msgs) ->
+    msgs = [DErr (fst who) (snd who) 2] /\ find_conn who (y_conns y') = None.
+Proof. exact second_peer_id_refused. Qed.
+Print Assumptions C17_second_peer_id_refused.
+
+Theorem C17_same_peer_id_forwarded : forall cfg cut ae k y who c rq,
+  find_conn who (y_conns y) = Some c ->
+  (aget N.eqb (q_hash rq) (sc_announced c) = None \/ aget N.eqb (q_hash rq) (sc_announced c) = Some (q_pid rq)) ->
+  forall y' msgs, wsys_step cfg cut ae k y who (CAnnounce rq) = Ok (y', msgs) ->
+    exists s' outs, ws_announce cfg (yget (y_workers y) (wroute k (q_hash rq))) rq 0 0 0 = Ok (s', outs)
+      /\ y_workers y' = yset (y_workers y) (wroute k (q_hash rq)) s' /\ msgs = deliver (y_conns y') outs.
+Proof. exact same_peer_id_forwarded. Qed.
+Print Assumptions C17_same_peer_id_forwarded.
+
+(* with both facts above in place: every scrape naming a list gets exactly one reply, on the
+   sender's connection, merging the swarm workers' parts *)
+Theorem C17_scrape_gets_exactly_one_reply : forall cfg k y who c hs y' msgs,
+  find_conn who (y_conns y) = Some c ->
+  wsys_step cfg ws_scrape_cut_before_split ws_scrape_empty_answered k y who (CScrape (Some hs)) = Ok (y', msgs) ->
+  y' = y /\ exists files, msgs = [DOut (WScrape (fst who) (snd who) files)].
+Proof.
+  intros cfg k y who c hs y' msgs. rewrite C17_scrape_cut_precedes_split, C17_empty_scrape_answered.
+  apply scrape_gets_exactly_one_reply.
+Qed.
+Print Assumptions C17_scrape_gets_exactly_one_reply.
+
+Theorem C17_closed_connection_is_gone : forall cfg cut ae k y who y' msgs,
+  wsys_step cfg cut ae k y who CClose = Ok (y', msgs) -> msgs = [] /\ find_conn who (y_conns y') = None.
+Proof. exact closed_connection_is_gone. Qed.
+Print Assumptions C17_closed_connection_is_gone.
